@@ -10,7 +10,7 @@
 //!                "raw":bool?,"shape":k?}
 //!   seg = {"d":[v..],"n":r}; element values are digit values (48 is added)
 //!   unless "raw" is true (bytes as they are).
-//!   shape: iterator adaptor shape 0..6 (C16); default 0 = slice iterators.
+//!   shape: iterator adaptor shape 0..8 (C16); default 0 = slice iterators; 7, 8 are not fused.
 
 use minimal_lexical::Float;
 use serde_json::{json, Value};
@@ -36,6 +36,27 @@ impl<'a> Iterator for Plain<'a> {
     }
     fn size_hint(&self) -> (usize, Option<usize>) {
         (0, None)
+    }
+}
+
+/// An iterator that is NOT fused: it answers None when it meets `stop` (consuming it) and would continue with the
+/// bytes behind it if polled again.  The Iterator contract allows that; parse_float must not poll after None.
+#[derive(Clone)]
+struct Segmented<'a> {
+    s: &'a [u8],
+    i: usize,
+    stop: u8,
+}
+impl<'a> Iterator for Segmented<'a> {
+    type Item = &'a u8;
+    fn next(&mut self) -> Option<&'a u8> {
+        let r = self.s.get(self.i)?;
+        self.i += 1;
+        if *r == self.stop {
+            None
+        } else {
+            Some(r)
+        }
     }
 }
 
@@ -81,7 +102,44 @@ fn call<F: Float>(int: &[u8], frac: &[u8], exp: i32, shape: u64) -> F {
             },
             exp,
         ),
-        _ => minimal_lexical::parse_float::<F, _, _>(int.iter().rev().rev(), frac.iter().rev().rev(), exp),
+        6 => minimal_lexical::parse_float::<F, _, _>(int.iter().rev().rev(), frac.iter().rev().rev(), exp),
+        7 => {
+            // NOT fused: the integer iterator walks "int . frac" and answers None at the '.', after which it would go on
+            // with the fraction digits; the fraction iterator walks "frac e 7777" and would go on with the sevens
+            let mut a: Vec<u8> = int.to_vec();
+            a.push(b'.');
+            a.extend_from_slice(frac);
+            let mut b: Vec<u8> = frac.to_vec();
+            b.push(b'e');
+            b.extend_from_slice(b"7777777777777777777777");
+            minimal_lexical::parse_float::<F, _, _>(
+                Segmented {
+                    s: &a,
+                    i: 0,
+                    stop: b'.',
+                },
+                Segmented {
+                    s: &b,
+                    i: 0,
+                    stop: b'e',
+                },
+                exp,
+            )
+        },
+        _ => {
+            // the same with std adaptors (map_while is not fused either)
+            let mut a: Vec<u8> = int.to_vec();
+            a.push(b'.');
+            a.extend_from_slice(frac);
+            let mut b: Vec<u8> = frac.to_vec();
+            b.push(b'e');
+            b.extend_from_slice(b"3333333333333333333333");
+            minimal_lexical::parse_float::<F, _, _>(
+                a.iter().map_while(|c| if *c == b'.' { None } else { Some(c) }),
+                b.iter().map_while(|c| if *c == b'e' { None } else { Some(c) }),
+                exp,
+            )
+        },
     }
 }
 
@@ -278,7 +336,7 @@ fn main() {
                     for round in 0..hammer {
                         for &idx in &mine {
                             let mut r = recs[idx].clone();
-                            let shape = ((round + t) % 7) as u64;
+                            let shape = ((round + t) % 9) as u64;
                             r["shape"] = Value::from(shape);
                             let o = run_one(&r, false, false);
                             v.push(json!({"id": o["id"], "thread": t, "seq": seq, "shape": shape, "kind": o["out"]["kind"], "bits": o["out"]["bits"]}));
@@ -293,7 +351,7 @@ fn main() {
                     let step = [1usize, 3, 7, 11, 13, 17, 19, 23][t % 8];
                     let idx = (k * step + t * 5) % n;
                     let mut r = recs[idx].clone();
-                    let shape = (r.get("shape").and_then(|v| v.as_u64()).unwrap_or(0) + t as u64 + (k as u64 / 3)) % 7;
+                    let shape = (r.get("shape").and_then(|v| v.as_u64()).unwrap_or(0) + t as u64 + (k as u64 / 3)) % 9;
                     r["shape"] = Value::from(shape);
                     let o = run_one(&r, poison && ((k + t) % 2 == 0), false);
                     v.push(json!({"id": o["id"], "thread": t, "seq": k, "shape": shape, "kind": o["out"]["kind"], "bits": o["out"]["bits"]}));
